@@ -186,6 +186,15 @@ def case_roundtrip(case):
             lab3 = list(edited.get_label_value_and_bounds_arrays(exclude_non_vary=True)[0])
             if L not in lab3:
                 vs.append(V("parameter-freed-after-a-first-export-not-handed-to-the-optimiser", label=L, kind=kind))
+            other = [M for M in labels if M != L]
+            if other:  # ... and a definition by expression given to an existing parameter takes it away from the optimiser
+                try:
+                    p.expression = f"${other[0]} * 2.0 + 1.0"
+                    lab4 = list(edited.get_label_value_and_bounds_arrays(exclude_non_vary=True)[0])
+                    if L in lab4 or p.vary:
+                        vs.append(V("parameter-given-an-expression-still-handed-to-the-optimiser", label=L, kind=kind, vary=bool(p.vary)))
+                except ValueError:
+                    pass  # the referenced parameter may itself depend on this one
             break
     # history of constructions: a second, newer parameter set with other values exists while the first makes the trip
     with warnings.catch_warnings():
@@ -225,6 +234,8 @@ def fit_parameters(case):
     labels = ["rate.m1.1", "rate.m1.2"]
     start = {"interior": [0.6, 2.5], "on_bound": [0.3, 3.0], "one": [1.0, 1.0 + 2 ** -3]}[case["start"]]
     ps = {}
+    if case.get("unused"):  # a free parameter the model never uses, declared first: a rank-deficient Jacobian
+        ps["aux.unused"] = Parameter(label="aux.unused", value=1.25)
     for i, (lab, kind) in enumerate(zip(labels, case["kinds"])):
         o = {k: (FIT_BOUNDS[k] if k in FIT_BOUNDS else v) for k, v in KINDS[kind].items()}
         if kind == "nonneg_min0":
@@ -404,6 +415,11 @@ def run(run: core.Run):
                 if start == "on_bound" and not any(k in ("min", "max", "both", "nonneg_both") for k in (k1, k2)):
                     continue
                 fits.append({"kinds": [k1, k2], "method": method, "start": start, "seed": run.seed, "nfev": 8 if quick else 25})
+    for k1, k2 in (("free", "free"), ("free", "nonneg"), ("nonneg", "free"), ("both", "free"), ("free", "fixed")):
+        for method in ("TrustRegionReflection", "Dogbox", "Levenberg-Marquardt"):
+            if method == "Levenberg-Marquardt" and "both" in (k1, k2):
+                continue
+            fits.append({"kinds": [k1, k2], "method": method, "start": "interior", "seed": run.seed, "nfev": 8 if quick else 25, "unused": True})
     run.map("fit", fits)
     run.bounds = {"kinds": list(KINDS), "positions": POSITIONS, "set_size": 2 if quick else 3, "fit_kinds": FIT_KINDS,
                   "methods": 3, "starts": 3, "max_nfev": 8 if quick else 25}  # fmt: skip
